@@ -256,6 +256,7 @@ func copyVal(v Value) Value {
 	return v
 }
 
+
 // ---------- heap with undo log ----------
 
 type undoRec struct {
